@@ -16,6 +16,13 @@ def run(pid, tier):
     sd = seed()
     thorough = tier == 'thorough'
     wd = workdir(pid, 'traces')
+    # the registry must exercise the internal representations its labels claim (read off Debug): a coverage
+    # statement of the evidence, checked rather than asserted
+    if not serde:
+        rc = rdv(['reg-check'])
+        if rc['mismatches']:
+            raise ToolError('registry labels disagree with the representations actually built: %s' % rc['mismatches'][:3])
+        o.extra['representations_confirmed_by_debug'] = rc['representations_confirmed']
     runs = [('exh', 3, None, 12 if not thorough else 60), ('sim', 14, 200 if not thorough else 2000, 20 if not thorough else 150)]
     total_events = 0
     variants = []
